@@ -13,6 +13,16 @@ Because the state handed to the model at step k is the OBSERVED state after step
 agreement on the whole history.  A disagreement on an operation that meets the hypotheses of the theorems (target
 names pairwise distinct and fresh) is a failing input of the property: the model provably keeps every content,
 removes exactly the originals and touches nothing else there.
+
+Laws evaluated on the implementation's own output (theorems of Props/C11.v with their hypotheses computed in Coq):
+  * written_is_found_law: after every F[s:e, fill] = x (or write()) the child asks find() for the file; it must be
+    reported exactly once, under the period (s, wif_period F s e) -- (s, e) for a complete end and in the exact
+    class of the sub-day end kind, the rolled period otherwise, (s, s + time_coverage) without end fields -- and with
+    the placeholder values it was written with, whenever wif_hyp holds;
+  * read_with_args / write_with_args / calls_keep_object: read, collect and write calls carry keyword arguments of
+    their own (model: run_call on a FileSet OBJECT); the value returned / the file written must be that of the
+    merged dictionary, and the object's default dictionaries, observed after EVERY operation, must be unchanged;
+  * empty_selection_noop: explicit selections that are empty (files=[]) are generated for move / copy / delete.
 """
 import datetime as dt
 import json
@@ -37,6 +47,8 @@ TRUSTED = [
     "with files at most a few hours long",
     "thread / process pools of FileSet.map (property C10): operations on distinct files are assumed to commute",
     "Model/C02_template.v render/info (property C02) for the file names; Model/C12_compress.v fmt_of_name",
+    "kcode (what a keyword dictionary means to a handler) is a Section variable; on the harness instance it reads the "
+    "keyword `offset` of the test handlers",
 ]
 DT_MAX = 315537897600000000
 EPOCH = dt.datetime.min
@@ -55,7 +67,8 @@ STARTS = ["{year}{month}{day}T{hour}{minute}{second}", "{year}{doy}_{hour}{minut
           "{year2}{month}{day}{hour}{minute}{second}", "{year}{month}{day}{hour}{minute}{second}{millisecond}",
           "{year}-{month}-{day}_{hour}-{minute}-{second}"]
 ENDS = ["", "", "-{end_year}{end_month}{end_day}T{end_hour}{end_minute}{end_second}",
-        "-{end_year}{end_doy}{end_hour}{end_minute}{end_second}", "-{end_hour}{end_minute}{end_second}"]
+        "-{end_year}{end_doy}{end_hour}{end_minute}{end_second}", "-{end_hour}{end_minute}{end_second}",
+        "-{end_minute}{end_second}", "_{end_hour}{end_minute}"]     # the last three: only sub-day end fields (C02 partial)
 DIRS = ["", "", "{year}{month}{day}/", "{year}/{doy}/", "{year}/{month}/{day}/", "{year}/", "{year2}{month}/"]
 SUFFIX = {"pkl": [".pkl"], "json": [".json"], "csv": [".csv", ".txt", ".asc"], "nc": [".nc", ".h5"]}
 COMP = ["", "", "", ".gz", ".bz2", ".xz", ".zip"]
@@ -117,7 +130,7 @@ def gen_sel(rng, anchor, cfg, files_ok=True):
             op["end"] = None
     elif files_ok:
         op["use_files"] = rng.randrange(1, 1 << 16)
-        if rng.random() < 0.2:
+        if rng.random() < 0.3:
             op["empty_files"] = True           # an explicit selection that is empty (files=[]): nothing is selected
     if cfg.get("sat") and "use_files" not in op and rng.random() < 0.45:
         vs = rng.sample(SATS, rng.choice([1, 1, 2]))
@@ -150,9 +163,14 @@ def gen_case(rng, k, tier, force_nc=False):
         if j < nwrites or r < 0.2:
             s = gen_time(rng, anchor)
             e = s + dt.timedelta(seconds=rng.choice([0, 60, 3599, 3600, 2 * 3600, 5 * 3600 + 1]))
+            if "{end_" in cfg["path"] and "{end_year" not in cfg["path"] and rng.random() < 0.15:
+                # a sub-day end says less than the period: longer than the unit above its coarsest field, the file is
+                # found under the rolled period (C02 roundtrip_end_partial), never under a longer one
+                e = s + dt.timedelta(seconds=rng.choice([26 * 3600, 47 * 3600 + 15 * 60, 86400]))
             value += 1
             op = {"op": "write", "fs": fsi, "s": us(s), "e": us(e), "v": value, "slice": rng.random() < 0.8,
-                  "fill": {"sat": rng.choice(SATS)} if (cfg["sat"] or rng.random() < 0.05) else None}
+                  "fill": {"sat": rng.choice(SATS)} if (cfg["sat"] or rng.random() < 0.05) else None,
+                  "call_args": rng.choice([None, None, None, None, 4, -5])}
             if ops and rng.random() < 0.15:    # overwrite an earlier period
                 prev = [o for o in ops if o["op"] == "write" and o["fs"] == fsi]
                 if prev:
@@ -160,13 +178,14 @@ def gen_case(rng, k, tier, force_nc=False):
                     op.update({"s": p["s"], "e": p["e"], "fill": p["fill"], "slice": p["slice"]})
         elif r < 0.30:
             op = {"op": "read", "fs": rng.randrange(nfs + moves), "pick": rng.randrange(64),
-                  "pre_args": rng.choice([0, 0, 1001, 2002])}
+                  "pre_args": rng.choice([0, 0, 1001, 2002]), "call_args": rng.choice([None, None, 7, -3, 12])}
         elif r < 0.36:
             op = {"op": "get", "fs": rng.randrange(nfs + moves), "pick": rng.randrange(64),
                   "pre_args": rng.choice([0, 0, 3003, 4004])}
         elif r < 0.50:
             f = rng.randrange(nfs + moves)
-            op = {"op": "collect", "fs": f, "slice": rng.random() < 0.4, **gen_sel(rng, anchor, filesets[f % nfs])}
+            op = {"op": "collect", "fs": f, "slice": rng.random() < 0.4, **gen_sel(rng, anchor, filesets[f % nfs]),
+                  "call_args": rng.choice([None, None, None, 6, -2])}
         elif r < 0.58:
             f = rng.randrange(nfs + moves)
             op = {"op": "find", "fs": f, **gen_sel(rng, anchor, filesets[f % nfs], files_ok=False)}
@@ -200,6 +219,38 @@ def gen_case(rng, k, tier, force_nc=False):
             op = {"op": "delete", "fs": f, "dry": rng.random() < 0.3, **gen_sel(rng, anchor, filesets[f % nfs])}
         ops.append(op)
     return {"id": k, "filesets": filesets, "ops": ops}
+
+
+def directed_cases(rng, k0):
+    """Year-end crossings for every way of spelling the end (none, complete with month/day, complete with doy, the three
+    sub-day suffixes), with doy and month/day starts: the combination the random histories hit most rarely.  Each
+    history writes a file across New Year and one before it, finds them, moves all to a doy template with a complete
+    end and finds them there."""
+    cases = []
+    base = {"sat": False, "cov": None, "rargs": 0, "wargs": 0, "post": None, "compress": True, "decompress": True,
+            "worker": "thread", "csv_args": 0}
+    sel_all = {"start": None, "end": None, "white": None, "black": None}
+    for end in sorted(set(ENDS)):
+        for start_tpl, d in (("{year}{doy}_{hour}{minute}{second}", "{year}/{doy}/"),
+                             ("{year}{month}{day}T{hour}{minute}{second}", "")):
+            kind = rng.choice(["pkl", "json"])
+            sfx = SUFFIX[kind][0]
+            f0 = dict(base, name="fs0", hkind=kind, path="d0/" + d + start_tpl + end + sfx)
+            f1 = dict(base, name="fs1", hkind=kind, path="d1/{year}{doy}_{hour}{minute}{second}-{end_year}{end_doy}"
+                                                         "{end_hour}{end_minute}{end_second}" + sfx + rng.choice(["", ".gz"]))
+            day = rng.choice([dt.datetime(2017, 12, 31), dt.datetime(2020, 12, 31), dt.datetime(1999, 12, 31)])
+            s1, s2 = day + dt.timedelta(hours=23, minutes=30), day + dt.timedelta(hours=22)
+            v = rng.randrange(1, 50) * 10
+            ops = [{"op": "write", "fs": 0, "s": us(s1), "e": us(s1 + dt.timedelta(hours=1)), "v": v + 1, "slice": True,
+                    "fill": None, "call_args": None},
+                   {"op": "write", "fs": 0, "s": us(s2), "e": us(s2 + dt.timedelta(minutes=30)), "v": v + 2, "slice": True,
+                    "fill": None, "call_args": None},
+                   {"op": "find", "fs": 0, **sel_all},
+                   {"op": "move", "fs": 0, "copy": rng.random() < 0.5, **sel_all, "target": {"kind": "fs", "fs": 1},
+                    "convert": None, "conv_none": True},
+                   {"op": "find", "fs": 1, **sel_all}]
+            cases.append({"id": k0 + len(cases), "filesets": [f0, f1], "ops": ops, "directed": "year-end"})
+    return cases
 
 
 # ----------------------------------------------------------------------------- Coq terms
@@ -236,6 +287,32 @@ def fset_term(cfg):
     post = "(fun x => x)" if cfg["post"] is None else f"(Z.add {zlit(cfg['post'])})"
     return (f"(FSet {tokens(cfg['path'])} {cov} {HCODE[cfg['hkind']]} {zlit(cfg['rargs'])} {zlit(cfg['wargs'])} "
             f"{post} {coq_bool(cfg['compress'])} {coq_bool(cfg['decompress'])})")
+
+
+def kw_term(k):
+    return "(kw_in [])" if not k else f"(kw_in [({coq_string('offset')}, {zlit(k)})])"
+
+
+def fobj_term(cfg):
+    """the FileSet OBJECT of the model: default dictionaries instead of the codes the handler reads from them"""
+    cov = "None" if cfg["cov"] is None else f"(Some {zlit(cfg['cov'] * 1000000)})"
+    post = "(fun x => x)" if cfg["post"] is None else f"(Z.add {zlit(cfg['post'])})"
+    return (f"(FObj {tokens(cfg['path'])} {cov} {HCODE[cfg['hkind']]} {kw_term(cfg['rargs'])} {kw_term(cfg['wargs'])} "
+            f"{post} {coq_bool(cfg['compress'])} {coq_bool(cfg['decompress'])})")
+
+
+def call_term(op):
+    """read / collect / write with keyword arguments of the call itself (None: the call has none)"""
+    if op.get("call") is None or op["cfg"]["hkind"] not in ("pkl", "json"):
+        return None
+    a, n = kw_term(op["call"]) if op["call"] else f"(kw_in [({coq_string('offset')}, 0)])", op["op"]
+    if n == "read" and "path" in op:
+        return f"(CRead {a} (s2l {coq_string(op['path'])}))"
+    if n == "collect":
+        return f"(CCollect {a} {sel_term(op)})"
+    if n == "write" and "path" in op:
+        return f"(CWrite {a} {zlit(op['v'])} (s2l {coq_string(op['path'])}))"
+    return None
 
 
 def filt_term(f):
@@ -348,8 +425,19 @@ def check_cases(ctx, cases, results):
         before = {}
         for k, rec in enumerate(r["records"]):
             if rec["out"]["status"] != "skipped":
-                exprs.append(f"(run_step {op_term(rec['op'])} {disk_term(before)}, "
-                             f"op_hyp {op_term(rec['op'])} (in_disk {disk_term(before)}))")
+                op = rec["op"]
+                ct = call_term(op)
+                if ct is not None:      # (outcome, read defaults after, write defaults after) of the call on the object
+                    res = f"run_call {fobj_term(op['cfg'])} {ct} {disk_term(before)}, true"
+                else:
+                    res = (f"run_step {op_term(op)} {disk_term(before)}, @nil (string * Z), @nil (string * Z), "
+                           f"op_hyp {op_term(op)} (in_disk {disk_term(before)})")
+                if op["op"] == "write":
+                    e = op["e"] if op["slice"] else op["s"]
+                    wif = f"run_wif {fset_term(op['cfg'])} {zlit(op['s'])} {zlit(e)} {attrs_term(op.get('fill'))}"
+                else:
+                    wif = "(false, false, @None Z, EmptyString)"
+                exprs.append(f"({res}, {wif})")
                 index.append((c, k, rec, dict(before)))
             before = rec["after"]
     vals, log = core.coq_eval(ctx.work / "cases", f"hist{os.getpid()}", PREAMBLE, exprs, shard=120)
@@ -358,6 +446,8 @@ def check_cases(ctx, cases, results):
     nontrivial = set()
     kinds = {}
     skipped_hyp = [0]
+    calls = [0]
+    wstats = {}
     for (c, k, rec, before), v in zip(index, vals):
         ctx.cov["evaluations"] += 1
         op, out, after = rec["op"], rec["out"], rec["after"]
@@ -365,10 +455,27 @@ def check_cases(ctx, cases, results):
         if v is None:
             ctx.fail("correspondence", f"Coq evaluation of the model failed on {describe(op)}", case=c, signature="coq-eval")
             continue
-        mres, hyp = norm(v[0]), v[1]
+        mres, mrd, mwd, hyp, wif = norm(v[0]), v[1], v[2], v[3], v[4]
         kind = "failing-input" if hyp else "correspondence"
         name = op["op"]
         where = f"history {c['id']} step {k}: {describe(op)}; tree before: {sorted(before)}"
+        is_call = call_term(op) is not None
+        if is_call:
+            calls[0] += 1
+        if op.get("files") == [] and name in ("move", "delete"):
+            kinds["empty_explicit_selections"] = kinds.get("empty_explicit_selections", 0) + 1
+        # ---- calls_keep_object: the default dictionaries of the object after the operation
+        obj, obj_init = out.get("obj"), out.get("obj_init")
+        if obj is not None and obj != obj_init:
+            ctx.fail("failing-input", f"after {name} the FileSet object carries other default arguments than before: "
+                     f"{obj} instead of {obj_init} (the arguments of a call must not stick to the object); {where}",
+                     case=c, impl=obj, model=obj_init, signature="object-state-changed")
+        elif is_call and isinstance(obj, dict):
+            want = {"read_args": {a: b for a, b in mrd}, "write_args": {a: b for a, b in mwd}}
+            if obj != want:
+                ctx.fail("failing-input", f"after {name} with arguments of its own the object's defaults are {obj}, the "
+                         f"model's object keeps {want}; {where}", case=c, impl=obj, model=want,
+                         signature="object-state-changed")
         if mres[0] == "TBad":
             want = model_err(mres[1])
             if out["status"] != "err":
@@ -407,6 +514,8 @@ def check_cases(ctx, cases, results):
             ctx.fail("failing-input", f"{name}: the object read back is not equal to the object written "
                      f"({out['faithful']}); {where}", case=c, impl=out,
                      signature=f"{op['cfg']['hkind']}-read-back-differs")
+        if name == "write":
+            check_written_found(ctx, c, op, out, wif, where, wstats)
         val = out.get("value")
         if name in ("read", "get") and mobs != "TUnspecified":
             if mobs != ("TData", val):
@@ -434,7 +543,58 @@ def check_cases(ctx, cases, results):
                         "source": op["cfg"]["path"], "target": op.get("target_cfg", {}).get("path"),
                         "before": sorted(before.items())[:6], "after": sorted(after.items())[:6]})
     kinds["moves_outside_hypotheses_not_compared"] = skipped_hyp[0]
+    kinds["calls_with_arguments_of_their_own"] = calls[0]
+    kinds["written_is_found_law"] = wstats
     return len(nontrivial), kinds
+
+
+def end_kind(path):
+    ends = [m for m in _PH.findall(path) if m.startswith("end_")]
+    if not ends:
+        return "no_end_fields"
+    return "complete_end" if any(m in ("end_year", "end_year2") for m in ends) else "sub_day_end"
+
+
+def check_written_found(ctx, c, op, out, wif, where, stats):
+    """written_is_found_law on the implementation's output: wif = (hypotheses, exact class, Some end | None)"""
+    def count(k):
+        stats[k] = stats.get(k, 0) + 1
+    hyp, exact, period, name = wif
+    if out.get("written") is not None and name != out["written"]:
+        ctx.fail("failing-input", f"the file was written under the name {out['written']}, the template generates {name}; "
+                 f"{where}", case=c, impl=out["written"], model=name, signature="write-name")
+    if not hyp:
+        count("outside_hypotheses_not_checked")
+        return
+    if period is None:
+        count("overflow_not_checked")
+        return
+    e_want = period[1]
+    s, e = op["s"], (op["e"] if op["slice"] else op["s"])
+    ek = end_kind(op["cfg"]["path"])
+    count(ek + ("_exact_class" if exact else "_outside_exact_class" if ek == "sub_day_end" else ""))
+    if ek == "sub_day_end" and e_want != e:
+        count("sub_day_end_found_under_another_end_than_written")
+    if exact and e_want != e:
+        ctx.fail("correspondence", f"model inconsistency: exact class but promised end {e_want} != {e}; {where}", case=c,
+                 signature="coq-eval")
+    if "found_error" in out:
+        ctx.fail("failing-input", f"after the write find() raised {out['found_error']} instead of reporting the file; {where}",
+                 case=c, impl=out, signature="written-not-found")
+        return
+    found = out.get("found")
+    if not found:
+        ctx.fail("failing-input", f"the file just written ({out.get('written')}) is not found by find({s}, {s} + 1us), the "
+                 f"property prescribes the period ({s}, {e_want}); {where}", case=c, impl=out, signature="written-not-found")
+        return
+    placeholders = [m for m in _PH.findall(op["cfg"]["path"]) if m not in FIELD and not m.startswith("end_")]
+    fill = op.get("fill") or {}
+    want_attr = sorted([n, fill[n]] for n in set(placeholders) if n in fill)
+    want = [[out["written"], s, e_want, want_attr]]
+    if found != want:
+        ctx.fail("failing-input", f"the file written with fileset[{s}:{e}] is reported by find() as {found}, the property "
+                 f"prescribes {want} ({'the period it was written with' if e_want == e else 'the rolled period'}); {where}",
+                 case=c, impl=found, model=want, signature="written-period")
 
 
 def run(ctx):
@@ -445,7 +605,9 @@ def run(ctx):
     if ctx.thorough:
         nnc = 40
         cases += [gen_case(ctx.rng, n + k, ctx.tier, force_nc=True) for k in range(nnc)]
-    ctx.log(f"{len(cases)} histories, {sum(len(c['ops']) for c in cases)} operations")
+    ndir = directed_cases(ctx.rng, len(cases))
+    cases += ndir
+    ctx.log(f"{len(cases)} histories ({len(ndir)} directed), {sum(len(c['ops']) for c in cases)} operations")
     results = run_children(ctx, cases, f"h{os.getpid()}", chunk=6 if not ctx.thorough else 16, jobs=12)
     ctx.log("implementation runs finished")
     nt, kinds = check_cases(ctx, cases, results)
@@ -455,6 +617,7 @@ def run(ctx):
                        "non-trivial = the operation succeeded and changed the tree, or returned at least one payload that "
                        "was compared; distinct by (operation, tree before)")
     ctx.cov["input_distribution"] = {"histories": len(cases), "netcdf_histories_in_child_process": nnc,
+                                     "directed_year_end_histories": len(ndir),
                                      "operations_by_kind": kinds,
                                      "handlers": {k: sum(1 for c in cases for f in c["filesets"] if f["hkind"] == k)
                                                   for k in ("pkl", "json", "csv", "nc")},
@@ -463,7 +626,13 @@ def run(ctx):
     ctx.assumptions += [
         "hypothesis of move_conserves, checked per operation inside Coq (op_hyp): the target names of the selected files "
         "are pairwise distinct and do not exist yet; other operations are compared with the algorithmic model only",
-        "files are created through the filesets themselves (names consistent with their directories), last at most a few hours",
+        "files are created through the filesets themselves (names consistent with their directories), last at most a few hours "
+        "(up to 47 h only on templates with a sub-day end, whose parsed period stays below one day)",
+        "hypotheses of written_is_found_law, evaluated per write inside Coq (wif_hyp = those of C02 no_end_fields / "
+        "roundtrip_end_full / roundtrip_end_partial; wif_exact = those of end_partial_exact): outside them the period find() "
+        "reports is only compared with the model on find operations",
+        "per-call keyword arguments are exercised with the one keyword the pickle / JSON test handlers take (offset); the "
+        "default dictionaries of every FileSet object are observed after every operation for all handlers",
         "a fileset whose name ends in .zip is only moved with convert (a renamed zip archive keeps its member name: C12)",
     ]
     return ctx.finish(trusted_base=TRUSTED)
